@@ -118,8 +118,32 @@ def do_run(ids):
     sh("cd %s && python3 -m verif.gen" % VERIF)
 
 
+def do_table(pattern):
+    """Markdown rows (id | what it does | how the check reports it) for DESIGN.md."""
+    import re
+    for sid in sorted(os.listdir(SEEDED)):
+        if not re.search(pattern, sid):
+            continue
+        m = json.load(open(os.path.join(SEEDED, sid, "meta.json")))
+        cr = m.get("check_result") or {}
+        rp = cr.get("replay") or {}
+        summ = (m.get("summary") or "").replace("\n", " ").replace("|", "/")
+        summ = re.split(r"(?<=[.;]) ", summ)[0][:210]
+        if m.get("confirmed_at_head") is False:
+            res = "not property-breaking at HEAD any more"
+        elif cr.get("detected") and cr.get("failing_input_found"):
+            res = (rp.get("what") or "detected")[:110]
+        elif cr.get("detected"):
+            res = "detected, no-failing-input-found"
+        else:
+            res = "**missed**"
+        print("| %s | %s | %s |" % (sid, summ, res.replace("|", "/")))
+
+
 if __name__ == "__main__":
-    if sys.argv[1] == "import":
+    if sys.argv[1] == "table":
+        do_table(sys.argv[2] if len(sys.argv) > 2 else ".")
+    elif sys.argv[1] == "import":
         do_import()
     else:
         do_run(sys.argv[2:])
